@@ -319,3 +319,223 @@ def c04_dims(case, kp):
             return False, dict(what='stage transform width != its n_features_out_', stage=n_,
                                width=int(Xk.shape[1]), declared=int(lf.n_features_out_))
     return True, None
+
+
+# ------------------------------------------------------------ C16
+def _trail(a, b):
+    """rows of b trailing-aligned per episode is handled by callers; here: same shape"""
+    return a.shape == b.shape
+
+
+def c16_helpers(case, rng, kp):
+    X = case['X']; epf = case['ep']; ns = case['ns']; nu = case['nu']; w = case['w']
+    nso, nuo = kp.n_states_out_, kp.n_inputs_out_
+    pre = sg.has_kind(('pipe', case['chain']), ('angle', 'sk'))
+    if min_ep_len(case) < w:
+        return True, None
+    for call in (None, True, False):
+        c = epf if call is None else call
+        if c == epf:
+            Xc = X
+        elif c:           # estimator fitted without episode feature, call with one
+            order, _ = sg.gen_layout(rng, w, max_eps=3, extra=3)
+            Xc = real_data(rng, order, ns, nu, True)
+        else:             # fitted with, call without
+            Xc = X[X[:, 0] == X[0, 0]][:, 1:]
+        off = 1 if c else 0
+        # reference for lift / retract from transform / inverse_transform on padded or split data
+        def ref(fn, M):
+            if c == epf:
+                return fn(M)
+            if epf and not c:
+                return fn(np.hstack((np.zeros((M.shape[0], 1)), M)))[:, 1:]
+            out = []
+            for l in sorted(set(M[:, 0].tolist())):
+                r = fn(M[M[:, 0] == l][:, 1:])
+                out.append(np.hstack((l * np.ones((r.shape[0], 1)), r)))
+            return np.vstack(out)
+        L = kp.lift(Xc, episode_feature=call)
+        Lref = ref(kp.transform, Xc)
+        if not close(L, Lref):
+            return False, dict(what='lift differs from transform on the padded/stripped data', call=call,
+                               Xc=Xc.tolist())
+        R = kp.retract(L, episode_feature=call)
+        if not close(R, ref(kp.inverse_transform, L)):
+            return False, dict(what='retract differs from inverse_transform on the padded/stripped data',
+                               call=call, Xc=Xc.tolist())
+        Ls = kp.lift_state(Xc[:, :off + ns], episode_feature=call)
+        if not close(Ls, L[:, :off + nso]):
+            return False, dict(what='lift_state is not the episode+state block of lift', call=call,
+                               Xc=Xc.tolist(), got_shape=list(Ls.shape), want_shape=[L.shape[0], off + nso])
+        Li = kp.lift_input(Xc, episode_feature=call)
+        want = np.hstack((L[:, :off], L[:, off + nso:]))
+        if not close(Li, want):
+            return False, dict(what='lift_input is not the episode+input block of lift', call=call,
+                               Xc=Xc.tolist(), got_shape=list(Li.shape), want_shape=list(want.shape))
+        # None behaves as the fit-time value
+        if call is None:
+            for nm, a, b in [('lift', L, kp.lift(Xc, episode_feature=epf)),
+                             ('lift_state', Ls, kp.lift_state(Xc[:, :off + ns], episode_feature=epf)),
+                             ('lift_input', Li, kp.lift_input(Xc, episode_feature=epf)),
+                             ('retract', R, kp.retract(L, episode_feature=epf)),
+                             ('retract_state', kp.retract_state(Ls), kp.retract_state(Ls, episode_feature=epf)),
+                             ('retract_input', kp.retract_input(Li), kp.retract_input(Li, episode_feature=epf))]:
+                if a.shape != b.shape or not np.array_equal(a, b):
+                    return False, dict(what=f'{nm}(episode_feature=None) differs from passing the fit-time value',
+                                       Xc=Xc.tolist())
+        if has_unwrap_spec(case):
+            continue
+        # retract_state / retract_input invert lift_state / lift_input (trailing samples per episode)
+        Rs = kp.retract_state(Ls, episode_feature=call)
+        Ri = kp.retract_input(Li, episode_feature=call)
+        for nm, got, src in [('retract_state', Rs, Xc[:, :off + ns]),
+                             ('retract_input', Ri, np.hstack((Xc[:, :off], Xc[:, off + ns:])))]:
+            eg = episodes_of(got, c); es = episodes_of(src, c)
+            for l, E in es.items():
+                g = eg.get(l)
+                if g is None or g.shape[0] == 0 or g.shape[0] > E.shape[0] or g.shape[1] != E.shape[1] \
+                        or not close(g, E[E.shape[0] - g.shape[0]:]):
+                    return False, dict(what=f'{nm} does not invert its lift counterpart', call=call, label=l,
+                                       Xc=Xc.tolist())
+    return True, None
+
+
+def has_unwrap_spec(case):
+    from . import known
+    return known.has_unwrap(('pipe', case['chain']))
+
+
+# ------------------------------------------------------------ C07
+def c07_prediction(case, rng, kp0):
+    X = case['X']; ep = case['ep']; ns = case['ns']; nu = case['nu']
+    if min_ep_len(case) < case['w'] + 1:
+        return True, None
+    nso, nuo = kp0.n_states_out_, kp0.n_inputs_out_
+    coef = rng.normal(size=(nso + nuo, nso)) * (0.3 / max(1.0, np.sqrt(nso + nuo)))
+    kp = build_real_top(case['chain'], regressor=pykoop.DataRegressor(coef=coef))
+    kp.fit(X, n_inputs=nu, episode_feature=ep)
+    w = kp.min_samples_
+    off = 1 if ep else 0
+    A = coef.T[:, :nso]; B = coef.T[:, nso:]
+    unwrap = has_unwrap_spec(case)
+    # ---- one-step prediction = retract(lift(x) @ coef)
+    P = kp.predict(X)
+    Xt = kp.transform(X)
+    et = episodes_of(Xt, ep)
+    blocks = []
+    for l in sorted(et):
+        pr = et[l] @ coef
+        pr = np.hstack((pr, np.zeros((pr.shape[0], nuo))))
+        blocks.append(np.hstack((l * np.ones((pr.shape[0], 1)), pr)) if ep else pr)
+    ref = kp.inverse_transform(np.vstack(blocks))
+    ref = ref[:, :off + ns]
+    if not close(P, ref, 1e-8):
+        return False, dict(what='predict differs from retracting the lifted sample times the Koopman matrix')
+    # ---- trajectories
+    x0 = pykoop.extract_initial_conditions(X, min_samples=w, n_inputs=nu, episode_feature=ep)
+    u = pykoop.extract_input(X, n_inputs=nu, episode_feature=ep)
+    for relift in (True, False):
+        Xp = kp.predict_trajectory(x0, u, relift_state=relift)
+        Xp1 = kp.predict_trajectory(X, relift_state=relift)
+        if Xp.shape != Xp1.shape or not np.array_equal(Xp, Xp1):
+            return False, dict(what='the two call forms of predict_trajectory disagree', relift_state=relift)
+        XU = kp.predict_trajectory(x0, u, relift_state=relift, return_input=True)
+        TH = kp.predict_trajectory(x0, u, relift_state=relift, return_lifted=True)
+        THU = kp.predict_trajectory(x0, u, relift_state=relift, return_lifted=True, return_input=True)
+        ep_p = episodes_of(Xp, ep); ep_u = episodes_of(u, ep); ep_x0 = episodes_of(x0, ep)
+        ep_xu = episodes_of(XU, ep); ep_th = episodes_of(TH, ep); ep_thu = episodes_of(THU, ep)
+        if sorted(ep_p) != sorted(ep_u):
+            return False, dict(what='prediction lost or invented an episode', relift_state=relift)
+        for l in ep_u:
+            Xl = ep_p[l]; Ul = ep_u[l]
+            if Xl.shape != (Ul.shape[0], ns):
+                return False, dict(what='prediction does not have one row per input sample', label=l,
+                                   relift_state=relift, got=list(Xl.shape), n_inputs_rows=int(Ul.shape[0]))
+            if not np.array_equal(Xl[:w], ep_x0[l]):
+                return False, dict(what='initial conditions are not reproduced verbatim', label=l,
+                                   relift_state=relift)
+            if not np.array_equal(ep_xu[l], np.hstack((Xl, Ul))):
+                return False, dict(what='return_input does not pass the inputs through unchanged', label=l,
+                                   relift_state=relift)
+            Th = ep_th[l]
+            if not np.array_equal(ep_thu[l][:, :nso], Th) or ep_thu[l].shape[1] != nso + nuo:
+                return False, dict(what='return_lifted/return_input blocks inconsistent', label=l, relift_state=relift)
+            Ups = ep_thu[l][:, nso:]
+            if relift:
+                for k in range(w, Ul.shape[0]):
+                    th = kp.lift_state(Xl[k - w:k], episode_feature=False)
+                    up = kp.lift_input(np.hstack((Xl[k - w:k], Ul[k - w:k])), episode_feature=False)
+                    nxt = kp.retract_state(th @ A.T + up @ B.T, episode_feature=False)[[-1], :]
+                    if not close(Xl[[k]], nxt, 1e-8):
+                        return False, dict(what='k-th predicted state is not the one-step prediction from the '
+                                                'previously predicted states and true inputs', label=l, k=k,
+                                           relift_state=True)
+                if not unwrap and not close(Th, kp.lift_state(Xl, episode_feature=False), 1e-8):
+                    return False, dict(what='returned lifted trajectory is not the lift of the returned states',
+                                       label=l, relift_state=True)
+            else:
+                m = Ul.shape[0] - w + 1
+                if Th.shape[0] != m:
+                    return False, dict(what='lifted trajectory has the wrong number of rows', label=l)
+                if not close(Th[[0]], kp.lift_state(ep_x0[l], episode_feature=False), 1e-9):
+                    return False, dict(what='theta[0] is not the lifted initial condition', label=l)
+                for k in range(m):
+                    up = kp.lift_input(np.hstack((Xl[k:k + w], Ul[k:k + w])), episode_feature=False)
+                    if not close(Ups[[k]], up, 1e-8):
+                        return False, dict(what='upsilon[k] is not the lifted input of window k', label=l, k=k)
+                    if k + 1 < m:
+                        if not close(Th[[k + 1]], Th[[k]] @ A.T + Ups[[k]] @ B.T, 1e-9):
+                            return False, dict(what='theta[k+1] != A theta[k] + B upsilon[k]', label=l, k=k)
+                        xr = kp.retract_state(Th[[k + 1]], episode_feature=False)[[-1], :]
+                        if not close(Xl[[k + w]], xr, 1e-8):
+                            return False, dict(what='state k+w is not the retraction of theta[k+1]', label=l, k=k)
+        # each episode's prediction is independent of the other episodes
+        if ep and len(ep_u) > 1:
+            l = sorted(ep_u)[int(rng.integers(0, len(ep_u)))]
+            x0l = x0[x0[:, 0] == l]; ul = u[u[:, 0] == l]
+            alone = kp.predict_trajectory(x0l, ul, relift_state=relift)
+            if not np.array_equal(alone[:, 1:], ep_p[l]):
+                return False, dict(what='prediction of one episode depends on the other episodes', label=l,
+                                   relift_state=relift)
+    return True, None
+
+
+def c07_divergence(rng):
+    """An episode whose prediction overflows must not disturb the other episodes
+    (the NaN / 'prediction diverged' branch)."""
+    bad = []
+    n = 0
+    for trial in range(6):
+        order = rng.permutation([0, 1, 2])
+        big = int(order[0]) if trial % 2 == 0 else int(order[1])
+        for relift in (True, False):
+            n += 1
+            kp = pykoop.KoopmanPipeline(
+                lifting_functions=[('p', pykoop.PolynomialLiftingFn(order=2))],
+                regressor=pykoop.DataRegressor(coef=np.array([[0.5, 0.0], [1.0, 0.0]])))
+            # x+ = 0.5 x + x^2 : diverges from x0 = 1e200 (overflow), converges from 0.1
+            T = 12
+            rows = []
+            for l in order:
+                x0 = (1e200 if trial < 3 else 1e30) if l == big else 0.1 * (l + 1)
+                for k in range(T):
+                    rows.append([float(l), x0 if k == 0 else 0.0])
+            X = np.array(rows)
+            kp.fit(np.array([[0., 0.1], [0., 0.2], [1., 0.3], [1., 0.1]]), n_inputs=0, episode_feature=True)
+            import warnings
+            with warnings.catch_warnings():
+                warnings.simplefilter('ignore')
+                P = kp.predict_trajectory(X, relift_state=relift)
+            for l in order:
+                if l == big:
+                    continue
+                Xl = X[X[:, 0] == l]
+                with warnings.catch_warnings():
+                    warnings.simplefilter('ignore')
+                    alone = kp.predict_trajectory(Xl, relift_state=relift)
+                got = P[P[:, 0] == l]
+                if got.shape != alone.shape or not np.array_equal(got, alone, equal_nan=True):
+                    bad.append(dict(what='a diverging episode changes the prediction of another episode',
+                                    relift_state=relift, diverging_label=big, label=int(l),
+                                    episode_order=[int(v) for v in order], X=X.tolist()))
+    return n, bad
